@@ -103,3 +103,190 @@ func Harness_C20_solve3() {
 		}
 	}
 }
+
+// Harness_C20_solve3trig: cubic with non-vanishing leading coefficient and negative discriminant
+// (trigonometric branch): three pairwise distinct values are returned and each is a root -- a cubic
+// has at most three roots, so every real root is returned and nothing else. cos((atan2+2k*pi)/3) is
+// introduced by the triple-angle identity (engine stub), sqrt/cbrt by their defining equations.
+// A and B3 (= b/3 numerator) may be fixed by cube constants (AFIX/BFIX != 0 selects the table value).
+func Harness_C20_solve3trig() {
+	a, b := vhReal("a", -4, 4), vhReal("b", -4, 4)
+	if k := vhConst("AFIX"); k != 0 {
+		a = float64(vhConst("ANUM")) / float64(vhConst("ADEN"))
+	}
+	if k := vhConst("BFIX"); k != 0 {
+		b = float64(vhConst("BNUM")) / float64(vhConst("BDEN"))
+	}
+	c, d := vhReal("c", -4, 4), vhReal("d", -4, 4)
+	vhAssume(!aeq0(a))
+	b3a := b / (3 * a)
+	p := b3a * b3a
+	q := 2*b3a*p - b3a*(c/a) + d/a
+	p = (c/a)/3 - p
+	disc := q*q + 4*p*p*p
+	vhAssume(disc < 0)
+	// REGION 0 is the whole claim; 1..3 repeat it on a part of the domain (sign of q, i.e. the quadrant
+	// of the angle), so that a counterexample that exists only in one part is the model the solver returns
+	switch vhConst("REGION") {
+	case 1:
+		vhAssume(q > 0)
+	case 2:
+		vhAssume(q < 0)
+	case 3:
+		vhAssume(q == 0)
+	}
+	roots := solve3([]float64{d, c, b, a})
+	vhReach("returned")
+	vhAssert(len(roots) == 3, "cubic-negative-discriminant-returns-three-values")
+	if len(roots) != 3 {
+		return
+	}
+	for _, r := range roots {
+		vhAssert(vhZero(a*r*r*r+b*r*r+c*r+d), "every-returned-value-is-a-root")
+	}
+	sep := func(u, v float64) bool { return !vhZero(u - v) }
+	vhAssert(sep(roots[0], roots[1]) && sep(roots[0], roots[2]) && sep(roots[1], roots[2]), "cubic-negative-discriminant-roots-pairwise-distinct")
+}
+
+// ---- curve / barrier intersection kernel (C20) ----
+
+// vhCurve: a table of control polygons (exact small rationals): S-shaped cubics that cross a line
+// three times, one-crossing cubics, curves whose x- or y-polynomial degenerates to a quadratic / a
+// line / a constant, a curve that is a straight segment.
+func vhCurve(i int) ctrlp {
+	t := [][8]float64{
+		{0, 0, 4, 2, -2, 4, 2, 6},    // S-shape in x: x(t) has three real roots region
+		{0, 0, 1, 2, 3, 4, 4, 6},     // gentle curve, monotone in both
+		{0, 0, 0, 2, 3, 4, 3, 6},     // vertical tangents
+		{1, 0, 1, 2, 1, 4, 1, 6},     // x constant: vertical straight segment (zero x-polynomial)
+		{0, 0, 1, 2, 2, 4, 3, 6},     // straight slanted segment, uniform parametrisation (x, y linear)
+		{0, 0, 2, 2, 2, 4, 0, 6},     // x quadratic (cubic coefficient of x vanishes), symmetric bulge
+		{0, 0, 6, 3, -3, 3, 3, 6},    // strong S with a loop-like bulge, y not monotone control polygon
+		{0, 0, 3, 0, 0, 6, 3, 6},     // horizontal end tangents
+		{2, 1, -1, 2, 5, 5, 2, 6},    // S-shape crossing its own chord
+		{0, 0, 1, 6, 2, -1, 3, 5},    // y(t) non-monotone: horizontal line crossed three times
+	}
+	r := t[i]
+	return ctrlp{P{r[0], r[1]}, P{r[2], r[3]}, P{r[4], r[5]}, P{r[6], r[7]}}
+}
+
+func vhPoly(co []float64, t float64) float64 { return co[0] + t*(co[1]+t*(co[2]+t*co[3])) }
+
+// vhGray: a leading coefficient inside the root finder's epsilon band but not zero -- there solve3
+// deliberately solves a truncated polynomial (tolerance design of the code, outside the exact claim).
+func vhGray(co []float64) bool {
+	a, b, c := co[3], co[2], co[1]
+	if a != 0 && aeq0(a) {
+		return true
+	}
+	if a == 0 && b != 0 && aeq0(b) {
+		return true
+	}
+	if a == 0 && b == 0 && c != 0 && aeq0(c) {
+		return true
+	}
+	if a == 0 && b == 0 && c == 0 && co[0] != 0 && aeq0(co[0]) {
+		return true
+	}
+	return false
+}
+
+// Harness_C20_intersect: the real curveIntersects / curveContained on a concrete cubic (cube CURVE)
+// and a barrier segment with symbolic end points; KIND 0 vertical, 1 horizontal, 2 slanted with the
+// slope fixed by the cube (SLN/SLD) and symbolic position and extent. A symbolic parameter t stands
+// for "any point of the curve".
+//   sound:    every returned value lies in [0,1] and the curve point at it lies on the segment;
+//   complete: if the curve point at t (0<=t<=1) lies on the segment, t is one of the returned values
+//             (unless the curve runs along the barrier's line: nil, "infinitely many", by design);
+//   contained: curveContained = false exactly when some such t lies in [eps2, 1-eps2] and the point is
+//             at squared distance >= eps1 from both barrier end points.
+func Harness_C20_intersect() {
+	var bz ctrlp
+	if k := vhConst("CURVE"); k >= 0 {
+		bz = vhCurve(k)
+		if vhConst("SUMMARY_SOLVE3") == 1 {
+			// scaled by 1/8 so that the polynomial coefficients stay inside the range of the root finder's contract
+			bz = ctrlp{scalep(bz.p0, 0.125), scalep(bz.p1, 0.125), scalep(bz.p2, 0.125), scalep(bz.p3, 0.125)}
+		}
+	} else {
+		// arbitrary control polygon (used with the root finder replaced by its contract)
+		bz = ctrlp{P{vhReal("p0x", -1, 1), vhReal("p0y", -1, 1)}, P{vhReal("p1x", -1, 1), vhReal("p1y", -1, 1)},
+			P{vhReal("p2x", -1, 1), vhReal("p2y", -1, 1)}, P{vhReal("p3x", -1, 1), vhReal("p3y", -1, 1)}}
+	}
+	var seg Segment
+	switch vhConst("KIND") {
+	case 0:
+		x := vhReal("sx", -8, 8)
+		seg = Segment{P{x, vhReal("sy0", -8, 8)}, P{x, vhReal("sy1", -8, 8)}}
+		vhAssume(seg.A.Y != seg.B.Y)
+	case 1:
+		y := vhReal("sy", -8, 8)
+		seg = Segment{P{vhReal("sx0", -8, 8), y}, P{vhReal("sx1", -8, 8), y}}
+		vhAssume(seg.A.X != seg.B.X)
+	case 3:
+		seg = Segment{P{vhReal("ax", -8, 8), vhReal("ay", -8, 8)}, P{vhReal("bx", -8, 8), vhReal("by", -8, 8)}}
+		vhAssume(seg.A.X != seg.B.X)
+	default:
+		sl := float64(vhConst("SLN")) / float64(vhConst("SLD"))
+		ax, ay, dx := vhReal("ax", -8, 8), vhReal("ay", -8, 8), vhReal("dx", -8, 8)
+		vhAssume(dx != 0)
+		seg = Segment{P{ax, ay}, P{ax + dx, ay + sl*dx}}
+	}
+	t := vhReal("t", 0, 1)
+	vhInstantiate(t)
+	xc, yc := bz.xcoeff(), bz.ycoeff()
+	px, py := vhPoly(xc, t), vhPoly(yc, t)
+	// is (px,py) on the closed segment?  cross product zero and inside the bounding box
+	cross := (seg.B.X-seg.A.X)*(py-seg.A.Y) - (seg.B.Y-seg.A.Y)*(px-seg.A.X)
+	inbox := px >= min(seg.A.X, seg.B.X) && px <= max(seg.A.X, seg.B.X) && py >= min(seg.A.Y, seg.B.Y) && py <= max(seg.A.Y, seg.B.Y)
+	on := vhZero(cross) && inbox
+	// the polynomial handed to solve3 (recomputed the way the code does) must not be in the epsilon band
+	var co []float64
+	if seg.B.X-seg.A.X == 0 {
+		co = bz.xcoeff()
+		co[0] -= seg.A.X
+	} else {
+		slope := (seg.B.Y - seg.A.Y) / (seg.B.X - seg.A.X)
+		co = bz.scoeff(slope)
+		co[0] += slope*seg.A.X - seg.A.Y
+	}
+	vhAssume(!vhGray(co))
+	if vhConst("SUMMARY_SOLVE3") == 1 {
+		// the root finder's contract is established for coefficients in [-4,4]
+		for _, v := range co {
+			vhAssume(v >= -4 && v <= 4)
+		}
+	}
+
+	roots := curveIntersects(bz, seg)
+	vhReach("returned")
+	along := co[0] == 0 && co[1] == 0 && co[2] == 0 && co[3] == 0
+	if along {
+		vhReach("curve-runs-along-the-barrier-line")
+		vhAssert(roots == nil, "curve-along-barrier-line-reports-infinitely-many")
+		return
+	}
+	for _, r := range roots {
+		vhAssert(r >= 0 && r <= 1, "returned-parameter-in-unit-interval")
+		rx, ry := vhPoly(xc, r), vhPoly(yc, r)
+		rcross := (seg.B.X-seg.A.X)*(ry-seg.A.Y) - (seg.B.Y-seg.A.Y)*(rx-seg.A.X)
+		rin := rx >= min(seg.A.X, seg.B.X) && rx <= max(seg.A.X, seg.B.X) && ry >= min(seg.A.Y, seg.B.Y) && ry <= max(seg.A.Y, seg.B.Y)
+		vhAssert(vhZero(rcross) && rin, "returned-parameter-is-an-intersection")
+	}
+	if on {
+		vhReach("curve-point-on-barrier")
+		vhAssert(vhIn(t, roots), "every-intersection-is-returned")
+	}
+	if vhConst("MODE") == 0 {
+		return
+	}
+	cont := curveContained(bz, []Segment{seg})
+	far := sqdistp(P{px, py}, seg.A) >= epsilon1 && sqdistp(P{px, py}, seg.B) >= epsilon1
+	if on && t >= epsilon2 && t <= 1-epsilon2 && far {
+		vhReach("crossing-away-from-barrier-ends")
+		vhAssert(!cont, "crossing-away-from-barrier-ends-is-not-contained")
+	}
+	if !cont {
+		vhReach("not-contained")
+	}
+}
